@@ -12,57 +12,181 @@ preserve – the only `panic` outcome of the model is the modelled allocation li
 Partial by nature: stack depth, the allocator, and panics inside syn / proc_macro2 / prettyplease /
 quote are runtime behaviour no executable model of pyxis can exhibit; the fuzzing part of the check
 is the only thing that looks at them.
+
+## The literal bound
+
+The model keeps integer literals as unbounded `Int`s.  pyxis reads them as `isize`, and so does the
+parser model (`Parser.lean:213`).  `RegOk.aligns` asks every resolved alignment to be `≤ 2 ^ 63`; for
+the alignments written in `#[align(N)]` attributes (type definitions and extern types) that bound is
+only true when `N` is an `isize`.  With a literal `2 ^ 64` in the AST the invariant is lost and
+`util::lcm` overflows (`ceCase` in `Lemmas/C12.lean`: the model answers `panic "util::lcm: acc / gcd * x"`).  This is
+an artefact of the model's unbounded literals, not a reachable panic of pyxis: no source text parses
+to such an AST.  The statements that depend on the bound are therefore proved under it
+(`ModuleBounded`, `StateOkB`, `CaseBounded` in `Lemmas/C12.lean`: the literals of the attributes of
+type definitions and extern types are in `isize` range) as `…_partial`, the unrestricted statements
+are kept in comments marked REFUTED, each with its counterexample.
 -/
 namespace PyxisVerif.C12
 open C09
 
 /-- `SemanticState::new` establishes the invariant (pointer widths 4 and 8) -/
-theorem new_ok (ps : Nat) (h : ps = 4 ∨ ps = 8) : StateOk (State.new ps) := by
-  sorry
+theorem new_ok (ps : Nat) (h : ps = 4 ∨ ps = 8) : StateOk (State.new ps) :=
+  (new_okB ps h).ok
+
+/-- … and there is nothing unresolved in it, so the literal bound holds too -/
+theorem new_ok_bounded (ps : Nat) (h : ps = 4 ∨ ps = 8) : StateOkB (State.new ps) :=
+  new_okB ps h
+
+/- REFUTED (model artefact, see "The literal bound"): an extern type `#[size(0), align(2^64)] extern type X;`
+   is accepted (`2^64` is a power of two) and registered as resolved with alignment `2^64 > 2^63`, so
+   `RegOk.aligns` fails for the new state.  Checked below as `addModule_ok_refuted`.
 
 /-- `add_module` preserves it – and never panics -/
 theorem addModule_ok (s s' : State) (m : G.Module) (path : Path) (hs : StateOk s)
-    (h : s.addModule m path = .ok s') : StateOk s' := by
-  sorry
+    (h : s.addModule m path = .ok s') : StateOk s'
+  (no proof: the statement is false in the model, see `addModule_ok_refuted`)
+-/
+
+/-- the counterexample to the unrestricted statement: `ceExtern` added to `State.new 8` -/
+theorem addModule_ok_refuted :
+    ¬ ∀ (s s' : State) (m : G.Module) (path : Path), StateOk s → s.addModule m path = .ok s' → StateOk s' := by
+  intro h
+  have hok : ((State.new 8).addModule ceExtern []).isOk = true := by decide +kernel
+  have hs' := h _ _ ceExtern [] (new_okB 8 (Or.inr rfl)).ok (eq_ok_stateOf _ hok)
+  have ha : alignAt (stateOf ((State.new 8).addModule ceExtern [])) ["X"] = some (2 ^ 64) := by decide +kernel
+  exact absurd (alignAt_le hs' _ _ ha) (by decide)
+
+/-- `add_module` preserves the invariant when the attributes of the module's extern types carry
+    `isize` literals (the definitions of the module do not matter for `StateOk`) -/
+theorem addModule_ok_partial (s s' : State) (m : G.Module) (path : Path) (hs : StateOk s)
+    (hbound : ∀ xt ∈ m.xtypes, AttrsBounded xt.2)
+    (h : s.addModule m path = .ok s') : StateOk s' :=
+  addModule_ok' s s' m path hs hbound h
+
+/-- `add_module` preserves the invariant together with the literal bound on the unresolved definitions -/
+theorem addModule_ok_partial_bounded (s s' : State) (m : G.Module) (path : Path) (hs : StateOkB s)
+    (hbound : ModuleBounded m) (h : s.addModule m path = .ok s') : StateOkB s' :=
+  addModule_okB s s' m path hs hbound h
 
 theorem addModule_no_panic (s : State) (m : G.Module) (path : Path) (site : String) :
-    s.addModule m path ≠ .panic site := by
-  sorry
+    s.addModule m path ≠ .panic site :=
+  fun h => addModule_np s m path site h
+
+/- REFUTED (model artefact, see "The literal bound"): in `State.new 8` plus the module
+   `#[align(2^64)] type V {}` (a state satisfying `StateOk`), the attempt on `V` succeeds – size 0 is a
+   multiple of every alignment – and stores `V` as resolved with alignment `2^64 > 2^63`.
+   Checked below as `attempt_ok_refuted`.
 
 /-- one resolution attempt preserves the invariant -/
-theorem attempt_ok (s : State) (p : Path) (hs : StateOk s) : StateOk (attemptItem s p).1 := by
-  sorry
+theorem attempt_ok (s : State) (p : Path) (hs : StateOk s) : StateOk (attemptItem s p).1
+  (no proof: the statement is false in the model, see `attempt_ok_refuted`)
+-/
+
+/-- the counterexample to the unrestricted statement: the attempt on `V` of `ceV` -/
+theorem attempt_ok_refuted : ¬ ∀ (s : State) (p : Path), StateOk s → StateOk (attemptItem s p).1 := by
+  intro h
+  have hok : ((State.new 8).addModule { defs := [ceV] } []).isOk = true := by decide +kernel
+  have hs : StateOk (stateOf ((State.new 8).addModule { defs := [ceV] } [])) :=
+    addModule_ok' _ _ { defs := [ceV] } [] (new_okB 8 (Or.inr rfl)).ok (fun _ hx => by cases hx)
+      (eq_ok_stateOf _ hok)
+  have hs' := h _ ["V"] hs
+  have ha : alignAt (attemptItem (stateOf ((State.new 8).addModule { defs := [ceV] } [])) ["V"]).1 ["V"]
+      = some (2 ^ 64) := by decide +kernel
+  exact absurd (alignAt_le hs' _ _ ha) (by decide)
+
+/-- one resolution attempt preserves the invariant when the unresolved definitions carry `isize` literals -/
+theorem attempt_ok_partial (s : State) (p : Path) (hs : StateOkB s) : StateOkB (attemptItem s p).1 :=
+  attemptItem_ok s p hs
 
 /-- **no panic in an attempt**: under the invariant the only panic an attempt can end in is the
     modelled allocation limit -/
 theorem attempt_no_panic (s : State) (p : Path) (hs : StateOk s) (site : String)
-    (h : (attemptItem s p).2 = .panic site) : site = allocSite := by
-  sorry
+    (h : (attemptItem s p).2 = .panic site) : site = allocSite :=
+  attemptItem_po s p hs site h
 
-/-- **no panic, no hang in a whole build**: from a state satisfying the invariant, `build` ends in
-    success, an error, the non-termination report, or the modelled allocation limit – never in another
-    panic and never by running out of fuel -/
+/- REFUTED (model artefact, see "The literal bound"): `ceState` – `State.new 8` plus the module
+   `#[align(2^64)] type V {}  type A { v: V }`.  It satisfies `StateOk` (`ce_ok`); the build resolves
+   `V` with alignment `2^64` in the first round and panics in `util::lcm` when `A` is laid out in the
+   second: `ceState.build [] = .panic "util::lcm: acc / gcd * x"` (`ce_build`).  Checked below as
+   `build_total_refuted`.
+
+/-- **no panic, no hang in a whole build** … -/
 theorem build_total (s : State) (prio : List Path) (hs : StateOk s) :
     (match s.build prio with
      | .ok _ => True
      | .nonterm _ => True
      | .err _ => True
      | .panic site => site = allocSite
+     | .fuel => False)
+  (no proof: the statement is false in the model, see `build_total_refuted`)
+-/
+
+/-- the counterexample to the unrestricted statement -/
+theorem build_total_refuted :
+    ¬ ∀ (s : State) (prio : List Path), StateOk s →
+      (match s.build prio with
+       | .ok _ => True
+       | .nonterm _ => True
+       | .err _ => True
+       | .panic site => site = allocSite
+       | .fuel => False) := by
+  intro h
+  have := h ceState [] ce_ok
+  rw [ce_build] at this
+  exact ceSite_ne this
+
+/-- **no panic, no hang in a whole build**: from a state satisfying the invariant whose unresolved
+    definitions carry `isize` literals, `build` ends in success, an error, the non-termination report, or
+    the modelled allocation limit – never in another panic and never by running out of fuel -/
+theorem build_total_partial (s : State) (prio : List Path) (hs : StateOkB s) :
+    (match s.build prio with
+     | .ok _ => True
+     | .nonterm _ => True
+     | .err _ => True
+     | .panic site => site = allocSite
      | .fuel => False) := by
-  sorry
+  have h := build_shape s prio hs
+  cases hb : s.build prio <;> rw [hb] at h <;> first | trivial | exact h
+
+/- REFUTED (model artefact, see "The literal bound"): `ceCase` (pointer width 8, one root module
+   `#[align(2^64)] type V {}  type A { v: V }`), for which the model answers
+   `panic "util::lcm: acc / gcd * x"` (`ce_run`).  Checked below as `run_total_refuted`.
 
 /-- … in particular for every case: any pointer width 4 or 8, any modules, any priority -/
 theorem run_total (c : Case) (hps : c.ps = 4 ∨ c.ps = 8) :
     (match c.run with
      | .panic site => site = allocSite
      | .fuel => False
+     | _ => True)
+  (no proof: the statement is false in the model, see `run_total_refuted`)
+-/
+
+/-- the counterexample to the unrestricted statement -/
+theorem run_total_refuted :
+    ¬ ∀ (c : Case), (c.ps = 4 ∨ c.ps = 8) →
+      (match c.run with
+       | .panic site => site = allocSite
+       | .fuel => False
+       | _ => True) := by
+  intro h
+  have := h ceCase (Or.inr rfl)
+  rw [ce_run] at this
+  exact ceSite_ne this
+
+/-- … in particular for every case whose modules carry `isize` literals: any pointer width 4 or 8,
+    any modules, any priority -/
+theorem run_total_partial (c : Case) (hps : c.ps = 4 ∨ c.ps = 8) (hbound : CaseBounded c) :
+    (match c.run with
+     | .panic site => site = allocSite
+     | .fuel => False
      | _ => True) := by
-  sorry
+  have h := run_shape c hps hbound
+  cases hb : c.run <;> rw [hb] at h <;> first | trivial | exact h
 
 /-- the modelled allocation limit is only reached by descriptions that ask for a vftable of more
     than `paddingLoopBound` (4 194 304) slots -/
 theorem alloc_only_for_huge_tables (out : List SFunc) (target : Nat) (site : String)
-    (h : makePadding out target = .panic site) : site = allocSite ∧ target > paddingLoopBound := by
-  sorry
+    (h : makePadding out target = .panic site) : site = allocSite ∧ target > paddingLoopBound :=
+  makePadding_panic out target site h
 
 end PyxisVerif.C12
